@@ -236,11 +236,16 @@ def gstr(s):
 
 # ----------------------------------------------------------------------------- Go harness
 
-def build_harness():
-    with Lock("harness"):
-        out = os.path.join(BUILD, "harness")
-        shutil.copy(os.path.join(REPO, "go.sum"), os.path.join(HARNESS_SRC, "go.sum"))
-        rc, o, e = sh(["go", "build", "-tags", "verif", "-ldflags=-checklinkname=0", "-o", out, "."],
+def build_harness(pkg="ranges"):
+    """build driver package harness/<pkg> against /repo's working tree with hooks on"""
+    with Lock("harness_" + pkg):
+        out = os.path.join(BUILD, "h_" + pkg)
+        with Lock("gosum"):
+            dst = os.path.join(HARNESS_SRC, "go.sum")
+            src = open(os.path.join(REPO, "go.sum")).read()
+            if not os.path.exists(dst) or open(dst).read() != src:
+                open(dst, "w").write(src)
+        rc, o, e = sh(["go", "build", "-tags", "verif", "-ldflags=-checklinkname=0", "-o", out, "./" + pkg],
                       cwd=HARNESS_SRC, env=GOENV, timeout=1500)
         if rc != 0:
             return None, (o + e)[-4000:]
